@@ -26,6 +26,7 @@ type Engine struct {
 	CPlain, CRace string
 	jobSeq        int
 	mu            sync.Mutex
+	routeMatchers map[string][]routeMatcher
 }
 
 // Worlds are the feature configurations the one world spec is regenerated in. The generated API is the
